@@ -176,6 +176,13 @@ fn ordered_partitions(ids: &[u64]) -> Vec<Vec<Vec<u64>>> {
     out
 }
 
+fn c_a_early() -> ConRep {
+    ConRep::new(3, LE_ZERO, Some(FnRep::Lin { terms: vec![(2, 1.0)], c: 0.0 })).with_meta("a")
+}
+fn rem_early(c: ConRep) -> RemRep {
+    RemRep { constraint: c, reason: "relaxed".into(), parameters: vec![("k".into(), "v".into())] }
+}
+
 fn instances(tier: Tier) -> Vec<(InstRep, Vec<Vec<(u64, f64)>>)> {
     let t = tier == Tier::Thorough;
     let inf = f64::INFINITY;
@@ -189,12 +196,27 @@ fn instances(tier: Tier) -> Vec<(InstRep, Vec<Vec<(u64, f64)>>)> {
         Some(FnRep::Lin { terms: vec![(1, 1.0)], c: -0.5 }),
         Some(FnRep::Quad { entries: vec![(2, 2, 1.0)], lin: Some((vec![(1, 2.0)], 0.0)) }),
         None,
+        // representation quirks: constant split over several degree-0 monomials, explicit zero entries,
+        // a degree-0 polynomial, a quadratic whose quadratic part is all zeros
+        Some(FnRep::Poly { terms: vec![(vec![], 2.0), (vec![1], 1.0), (vec![], -0.5), (vec![2, 1], 0.0)] }),
+        Some(FnRep::Poly { terms: vec![(vec![], 1.0), (vec![], 2.0)] }),
+        Some(FnRep::Quad { entries: vec![(1, 2, 0.0), (2, 2, 0.0)], lin: Some((vec![(1, 1.0), (2, 0.0)], 0.5)) }),
     ];
     let c_a = ConRep::new(3, LE_ZERO, Some(FnRep::Lin { terms: vec![(2, 1.0)], c: 0.0 })).with_meta("a");
     let c_b = ConRep::new(7, EQ_ZERO, Some(FnRep::Quad { entries: vec![(1, 1, 1.0)], lin: Some((vec![], -4.0)) }));
     let c_c = ConRep::new(1, LE_ZERO, None);
     let rem = |c: ConRep| RemRep { constraint: c, reason: "relaxed".into(), parameters: vec![("k".into(), "v".into())] };
-    let con_cfgs: Vec<(Vec<ConRep>, Vec<RemRep>)> = vec![
+    // constraint values exactly on / next to the feasibility tolerance, independent of the state
+    let thr = |id: u64, eq: i32, c: f64| ConRep::new(id, eq, Some(FnRep::Const(c)));
+    let thr_lin = |id: u64, eq: i32, c: f64| ConRep::new(id, eq, Some(FnRep::Poly { terms: vec![(vec![], c), (vec![1], 0.0)] }));
+    let mut con_cfgs: Vec<(Vec<ConRep>, Vec<RemRep>)> = vec![
+        (vec![thr(9, EQ_ZERO, 1e-6)], vec![]),
+        (vec![thr(9, EQ_ZERO, -1e-6), c_a_early()], vec![]),
+        (vec![], vec![rem_early(thr(9, EQ_ZERO, 1e-6))]),
+        (vec![thr(9, LE_ZERO, 1e-6)], vec![rem_early(thr_lin(11, EQ_ZERO, -5e-7))]),
+        (vec![thr_lin(9, EQ_ZERO, 5e-7)], vec![rem_early(thr(11, LE_ZERO, 1e-6))]),
+    ];
+    let base_cfgs: Vec<(Vec<ConRep>, Vec<RemRep>)> = vec![
         (vec![], vec![]),
         (vec![c_a.clone()], vec![]),
         (vec![c_a.clone(), c_b.clone()], vec![]),
@@ -202,13 +224,14 @@ fn instances(tier: Tier) -> Vec<(InstRep, Vec<Vec<(u64, f64)>>)> {
         (vec![], vec![rem(c_b.clone()), rem(c_c.clone())]),
         (vec![c_c.clone(), c_a.clone()], vec![rem(c_b.clone())]),
     ];
+    con_cfgs.extend(base_cfgs);
     let mut out = vec![];
     for x7 in &x7s {
         for (oi, o) in objs.iter().enumerate() {
             for (ci, cc) in con_cfgs.iter().enumerate() {
                 for prefixed in [false, true] {
                     for dep in [0u8, 1, 2] {
-                        if !t && (oi + ci + usize::from(prefixed) + dep as usize) % 2 == 1 && x7.is_some() && ci > 1 {
+                        if !t && (oi + ci + usize::from(prefixed) + dep as usize) % 3 != 0 && x7.is_some() && ci > 6 {
                             continue;
                         }
                         let mut vars = vec![VarRep::new(1, KIND_CONTINUOUS, None), VarRep::new(2, KIND_INTEGER, Some((-2.0, 3.0)))];
@@ -258,11 +281,17 @@ fn instances(tier: Tier) -> Vec<(InstRep, Vec<Vec<(u64, f64)>>)> {
                             }
                             s
                         };
+                        // when a variable is pre-fixed, the last pool state carries a DIFFERENT value for it:
+                        // the single-state path lets the fixed value win, and so must SampleSet::get
+                        let mut last = vec![(1, -2.0), (2, 2.0)];
+                        if prefixed {
+                            last.push((8, 7.0));
+                        }
                         let pool = vec![
                             with7(vec![(1, 2.0), (2, -1.0)], v7a),
                             vec![(1, 2.0), (2, -1.0)],
                             with7(vec![(1, 2.0), (2, -1.0)], v7b),
-                            with7(vec![(1, -2.0), (2, 2.0)], v7a),
+                            with7(last, v7a),
                         ];
                         out.push((inst, pool));
                     }
